@@ -156,6 +156,11 @@ class YAMLPath:
         removable_segment = YAMLPath._stringify_yamlpath_segments(
             popped_queue, self.separator)
         prefixed_segment = "{}{}".format(self.separator, removable_segment)
+        if self.separator == PathSeparators.FSLASH:
+            # The stringified segment already begins with the separator; a
+            # second one could only match the tail of the previous segment
+            # (a key which ends with an escaped /).
+            prefixed_segment = removable_segment
         path_now = self.original
 
         if path_now.endswith(prefixed_segment):
